@@ -16,6 +16,8 @@ def _alarm(signum, frame):
 
 def _run_one(args):
     func, task, limit = args
+    if isinstance(task, dict) and task.get('limit'):
+        limit = task['limit']
     t0 = time.time()
     if limit:
         signal.signal(signal.SIGALRM, _alarm)
